@@ -97,6 +97,10 @@ class EpisodeSim:
         hist = [[] for _ in range(B)]  # actions fed to the row now at pos (incl. padding)
         done_at = [None] * B          # indexed by pos
         cap = D.step_bound_generic(cfg, td)
+        for pos, r in enumerate(self.rows):
+            b = refs[pos].step_bound() if refs[pos] is not None else generic_step_bound(name, r, cfg)
+            if b is not None:
+                cap = max(cap, b + 2)  # the cap only bounds the run; the problem bound is checked at the end
         t = 0
         snap = None
         tail = []
